@@ -68,7 +68,8 @@ DecR(t, w, i) ==
                                        [v |-> Append(acc.v, d.v), i |-> d.i]),
                                [v |-> <<>>, i |-> i1], [e \in 1..t.cap |-> e]),
                  LAMBDA r :
-                    With(i + 16 + ahead * ((r.i - i1) \div t.cap), LAMBDA ito :
+                    \* saturating: a hostile "ahead" times a large element must not overflow TLC's integers
+                    With(SatAdd(i + 16, SatMul(ahead, (r.i - i1) \div t.cap)), LAMBDA ito :
                         [v |-> r.v, i |-> IF t.ext /\ ito >= r.i THEN ito ELSE r.i]))))
       [] t.k = "msg" ->
             With(IF t.ext THEN Num16(w, i) ELSE 0, LAMBDA ahead :
